@@ -55,7 +55,11 @@ RULE = ('cases = (record, container, implementation | dt) calls of the real func
         'repeated calls (cached swtf), reads of other cached quantities in between, the caller-presets-swtf idiom, then '
         'reset_values and 3 of 8 further mutators (add_constant, add_series, remove_average, remove_poly, butter_pass, '
         'running_average, same / shorter reset) each followed by a call judged against the CURRENT values, the re-preset '
-        'idiom after a mutation (judged) and a foreign swtf attached after a mutation (counted). '
+        'idiom after a mutation (judged) and a foreign swtf attached after a mutation (counted); and one multi-object '
+        'history: two components (on-grid sinusoid pair, every third a random pair; none / one / both analysed first) combined '
+        'with combine_at_angle at 4 angles out of {0, 30, 90, 180, 270, -90, 360, 45.5, -30.25, 123.4, U(-360,360)}, each '
+        'combination analysed twice, then interp_to_approx_dt of an analysed object, a deep copy analysed / mutated / analysed, '
+        'and Cluster members analysed before and after same_start. '
         'distinct = digest(record, options); non-trivial = record with at least two distinct values.')
 ASSUMPTIONS = ['real, finite records of length 4..1024 (complex input, scalars, lengths 1..3 and > 1024 are counted, not judged; '
                'records past 2**16 are not driven: the (n/2 x n) result alone would take 34 GB)',
@@ -74,6 +78,10 @@ ASSUMPTIONS = ['real, finite records of length 4..1024 (complex input, scalars, 
                'object after the change; an swtf the caller attached explicitly (at construction or after the last change) is '
                'honoured: judged when it is a monitored transform of the current values, counted otherwise; a mutator that '
                'raises is another property\'s business (counted)',
+               'an swtf found on a signal object is the library\'s doing unless the caller attached it through '
+               'c15.caller_attach (the driver\'s explicit presets): whatever the library memoised, carried over or assembled '
+               '(combine_at_angle, interp_to_approx_dt, Cluster, deepcopy) must be the transform of the values the object has '
+               'at call entry (clause asig.swtf==transform(values)) and the trace is judged against the reference of those values',
                'oracle vf/oracles/stransform.py is correct (vectorised direct sums, cross-checked in every run against the '
                'literal scalar triple loop on short records)']
 MIN_EVALS = {
@@ -92,7 +100,8 @@ MIN_EVALS = {
         'argument-unchanged(transform)': 9000, 'argument-unchanged(transform_w_scipy_fft)': 3000,
         'argument-unchanged(itransform)': 6000, 'argument-unchanged(get_max_tifq_vals_freq)': 8500,
         'argument-unchanged(get_max_stockwell_freq)': 6500, 'argument-unchanged(sequence)': 3000,
-        'maxfreq(asig)==f.after-mutation[even]': 240, 'maxfreq(asig)==f.after-mutation[odd]': 240,
+        'maxfreq(asig)==f.after-mutation[even]': 350, 'maxfreq(asig)==f.after-mutation[odd]': 350,
+        'asig.swtf==transform(values)[even]': 1100, 'asig.swtf==transform(values)[odd]': 1100,
         'oracle.vectorised==scalar': 8,
     },
     'thorough': {
@@ -110,7 +119,8 @@ MIN_EVALS = {
         'argument-unchanged(transform)': 25000, 'argument-unchanged(transform_w_scipy_fft)': 6400,
         'argument-unchanged(itransform)': 13600, 'argument-unchanged(get_max_tifq_vals_freq)': 23000,
         'argument-unchanged(get_max_stockwell_freq)': 19500, 'argument-unchanged(sequence)': 7700,
-        'maxfreq(asig)==f.after-mutation[even]': 480, 'maxfreq(asig)==f.after-mutation[odd]': 480,
+        'maxfreq(asig)==f.after-mutation[even]': 700, 'maxfreq(asig)==f.after-mutation[odd]': 700,
+        'asig.swtf==transform(values)[even]': 2200, 'asig.swtf==transform(values)[odd]': 2200,
         'oracle.vectorised==scalar': 8,
     },
 }
@@ -583,6 +593,16 @@ _SEEN = weakref.WeakKeyDictionary()        # signal -> (swtf attached after its 
 _AFTER_MUT = weakref.WeakKeyDictionary()   # signal -> swtf still attached right after its last reset_values (None: dropped)
 
 
+_CALLER = _Registry(64)      # swtf arrays the CALLER (the driver) attached explicitly
+
+
+def caller_attach(asig, arr):
+    """The caller's explicit choice of a time-frequency array for a signal object (honoured by the monitor). Every swtf
+    found on an object that did not come through here was put there by the library and must be transform(values)."""
+    _CALLER.put(arr, True)
+    asig.swtf = arr
+
+
 def _post_reset_values(args, kwargs, result, pre):
     """Every public mutator of Signal/AccSignal ends in reset_values: remember which swtf (if any) survived it."""
     try:
@@ -658,11 +678,26 @@ def _post_maxfreq_asig(args, kwargs, result, pre):
         info = REG.get(swtf_obj)         # the object attached at call entry
         current = info is not None and info.get('derived') in VALUE_PRESERVING and \
             core.digest(O.even_part(info['record'])) == core.digest(O.even_part(rec))
-        if not current:
-            # an swtf the caller attached explicitly (at construction time or after the last mutation) that is not a
-            # monitored transform of the current values: the caller's choice is honoured -> counted, not judged
-            ctx.observe('maxfreq(asig):caller-preset-swtf-not-the-transform-of-current-values')
-            return
+        if _CALLER.get(swtf_obj) is not None:
+            if not current:
+                # an swtf the caller attached explicitly (at construction time or after the last mutation) that is not a
+                # monitored transform of the current values: the caller's choice is honoured -> counted, not judged
+                ctx.observe('maxfreq(asig):caller-preset-swtf-not-the-transform-of-current-values')
+                return
+        else:
+            # put there by the library (memoised by a stockwell function, carried over or built by a function that makes a
+            # new signal object from old ones, copied by deepcopy): it must be the transform of the values the object has
+            carried = np.asarray(swtf0)
+            okc = carried.shape == ref.shape and carried.dtype.kind == 'c'
+            e = a = float('nan')
+            idx = None
+            if okc:
+                okc, idx, e, a = tol.worst(carried, ref, scale=float(np.sum(np.abs(O.even_part(rec)))), rtol=RTOL * _fac(rec))
+            ctx.check(okc, 'asig.swtf==transform(values)[%s]' % _par(len(rec)), wit,
+                      'the swtf carried by the signal object (shape %s; %s) is not the Stockwell transform of its values '
+                      '(length %d): cell %s |diff|=%.3g allowed %.3g'
+                      % (carried.shape, 'a monitored transform result' if info is not None else 'not returned by transform: '
+                         'assembled by the library', len(rec), idx, e, a))
     check_maxfreq(ctx, 'asig', rec, kind, dt, np.abs(ref), result, wit, amp_is_reference=True)
 
 
@@ -945,11 +980,11 @@ def drive_history(ctx, eqsig, x1, x2, dt, dt2, order, muts=()):
                 sw.get_max_stockwell_freq(a)
             elif step == 'preset':
                 c = eqsig.AccSignal(x2, dt)
-                c.swtf = sw.transform(c.values)      # idiom of plot_stock: the caller attaches the transform
+                caller_attach(c, sw.transform(c.values))     # idiom of plot_stock: the caller attaches the transform
                 sw.get_max_stockwell_freq(c)
         a.reset_values(np.array(x2))                 # (a private copy: who owns the caller's array is C05's business)
         sw.get_max_stockwell_freq(a)                 # must be the trace of x2
-        a.swtf = sw.transform(a.values)              # the caller re-attaches after the mutation: honoured, judged
+        caller_attach(a, sw.transform(a.values))     # the caller re-attaches after the mutation: honoured, judged
         sw.get_max_stockwell_freq(a)
         for m in muts:
             try:
@@ -961,13 +996,74 @@ def drive_history(ctx, eqsig, x1, x2, dt, dt2, order, muts=()):
             if m == 'add_constant':
                 sw.get_max_stockwell_freq(a)         # and again, now on the memoised transform
         a.reset_values(np.array(x1))
-        a.swtf = sw.transform(x2)                    # a foreign transform attached after the mutation: the caller's choice
+        caller_attach(a, sw.transform(x2))           # a foreign transform attached after the mutation: the caller's choice
         sw.get_max_stockwell_freq(a)
         sw.get_max_stockwell_freq(twin)              # the twin never changed
     except Exception as ex:   # noqa
         ctx.exception('maxfreq(asig)==f.after-mutation[%s]' % par, wit(), ex)
     _purity(ctx, x1, p1, wit, 'the caller array the twin objects were built from')
     _purity(ctx, x2, p2, wit, 'the caller array passed to reset_values')
+
+
+ANGLES = (0, 30, 90, 180, 270, -90, 45.5, 360, -30.25, 123.4, 180.0, 90.0)
+ANALYSED = ('both', 'both', 'ns', 'we', 'none', 'both')
+
+
+def _seq_combine(x1, x2, dt, angles, analysed, extras=True):
+    p1, p2 = np.array(x1), np.array(x2)
+    return lambda: {'fn': 'combine', 'record': p1, 'record2': p2, 'container': 'ndarray:float64', 'dt': dt,
+                    'dt_form': _dt_form(dt), 'angles': list(angles), 'analysed': analysed, 'extras': bool(extras)}
+
+
+@_as_sequence(_seq_combine)
+def drive_combine(ctx, eqsig, x1, x2, dt, angles, analysed, extras=True):
+    """Multi-object histories: signal objects BUILT BY THE LIBRARY from objects that may already carry a memoised swtf.
+    Two components (none / one / both analysed first) combined with combine_at_angle at several angles, each combination
+    analysed through get_max_stockwell_freq (twice); then interp_to_approx_dt of an analysed object, a deep copy of an
+    analysed object (analysed as is, then mutated), and Cluster members analysed, aligned with same_start and analysed
+    again. The monitor judges every call against the values the object has at call entry."""
+    import copy
+    sw = eqsig.stockwell
+    par = _par(len(x1))
+    wit = _SEQ[-1]
+    try:
+        ns = eqsig.AccSignal(x1, dt)
+        we = eqsig.AccSignal(x2, dt)
+        if analysed in ('both', 'ns'):
+            sw.get_max_stockwell_freq(ns)
+        if analysed in ('both', 'we'):
+            sw.get_max_stockwell_freq(we)
+        for i, angle in enumerate(angles):
+            comb = eqsig.combine_at_angle(ns, we, angle) if i % 2 == 0 else \
+                eqsig.multiple.combine_at_angle(acc_sig_ns=ns, acc_sig_we=we, angle=angle)
+            sw.get_max_stockwell_freq(comb)
+            sw.get_max_stockwell_freq(comb)          # now on whatever the first call left on the object
+        sw.get_max_stockwell_freq(ns)                # the components are still themselves
+        sw.get_max_stockwell_freq(we)
+        if extras:
+            try:
+                down = eqsig.interp_to_approx_dt(ns, 2 * float(dt))
+            except Exception:   # noqa  (resampling is C14's business)
+                ctx.observe('combine:interp_to_approx_dt-raised')
+                down = None
+            if down is not None and down.npts >= LEN_MIN:
+                sw.get_max_stockwell_freq(down)
+            dup = copy.deepcopy(we)                  # carries a copy of the memoised transform
+            sw.get_max_stockwell_freq(dup)
+            dup.reset_values(np.array(x1))
+            sw.get_max_stockwell_freq(dup)           # must be the trace of x1
+            sw.get_max_stockwell_freq(we)            # the original is untouched
+            cl = eqsig.Cluster([np.array(x1), np.array(x2), np.array(x1 + x2)], float(dt))
+            for j in range(3):
+                sw.get_max_stockwell_freq(cl.signal_by_index(j))
+            try:
+                cl.same_start(start=0, end=0.25 * len(x1) * float(dt))
+            except Exception:   # noqa  (C18's business)
+                ctx.observe('combine:same_start-raised')
+            for j in range(3):
+                sw.get_max_stockwell_freq(cl.signal_by_index(j))
+    except Exception as ex:   # noqa
+        ctx.exception('asig.swtf==transform(values)[%s]' % par, wit(), ex)
 
 
 def drive_out_of_domain(ctx, eqsig, rng):
@@ -1276,6 +1372,21 @@ def run_item(ctx, eqsig, rng, idx, item):
         order = [['repeat', 'twin', 'read', 'clone', 'preset'][int(i)] for i in rng.permutation(5)]
         order += [order[int(rng.integers(5))]]
         ctx.case(core.digest(xs[2], xs[1], 'history', order), nontrivial=True, cls='history-%s' % _par(length))
+        # multi-object history: an on-grid sinusoid pair (two of three items) or a random pair, 4 angles
+        if idx % 3 == 2:
+            c1, _ = gen.record(rng, length, cls=['noise', 'quake', 'walk', 'chirp'][int(rng.integers(4))])
+            c2, _ = gen.record(rng, length, cls=['noise', 'quake', 'beat', 'sine'][int(rng.integers(4))])
+        else:
+            c1, c2 = xs[0].copy(), xs[1].copy()
+            if ks[0] == ks[1]:
+                c2 = sinusoid(rng, length, ks[2])
+        angles = [ANGLES[(idx + 3 * j) % len(ANGLES)] for j in range(4)]
+        if idx % 2 == 0:
+            angles[int(rng.integers(4))] = float(rng.uniform(-360, 360))
+        analysed = ANALYSED[idx % len(ANALYSED)]
+        ctx.case(core.digest(c1, c2, 'combine', angles, analysed), nontrivial=True, cls='combine-%s-%s' % (analysed, _par(length)),
+                 sample={'fn': 'combine_at_angle+get_max_stockwell_freq', 'n': length, 'angles': angles, 'analysed': analysed})
+        drive_combine(ctx, eqsig, c1, c2, float(dts[(idx + 3) % 8]), angles, analysed)
         muts = [MUTATORS[int(i)] for i in rng.permutation(len(MUTATORS))[:3]]
         drive_history(ctx, eqsig, xs[2].copy(), xs[1].copy(), dts[(idx + 1) % 8], dts[(idx + 2) % 8], order, muts)
 
@@ -1348,7 +1459,7 @@ def replay(w):
         elif fn == 'get_max_stockwell_freq':
             asig = eqsig.AccSignal(_container(rec, kind), dt)
             if w.get('preset_swtf'):
-                asig.swtf = sw.transform(asig.values)
+                caller_attach(asig, sw.transform(asig.values))
             sw.get_max_stockwell_freq(asig)
         elif fn == 'get_max_tifq_vals_freq':
             s = getattr(sw, w.get('impl', 'transform'))(_container(rec, kind))
@@ -1365,6 +1476,9 @@ def replay(w):
             forms = w.get('dt_forms') or [None] * len(dts)
             drive_sinusoid(ctx, eqsig, _container(rec, kind), [_dt_build(d, f) for d, f in zip(dts, forms)],
                            w.get('impl', 'transform'), w.get('tform'))
+        elif fn == 'combine':
+            drive_combine(ctx, eqsig, np.array(rec, dtype=float), np.array(w['record2'], dtype=float), dt, w.get('angles', [180]),
+                          w.get('analysed', 'both'), w.get('extras', True))
         elif fn == 'history':
             drive_history(ctx, eqsig, np.array(rec, dtype=float), np.array(w['record2'], dtype=float), dt,
                           _dt_build(w.get('dt2', 0.01), w.get('dt2_form')), w.get('order', []), w.get('muts', []))
